@@ -9,4 +9,4 @@ Definition run_plan (s : state) (prog : list action) (plan : option (nat * fault
 Definition z_of_mode (m : N) : Z := Z.of_N m.
 
 Extraction "C05_model.ml" z_of_mode prog_ops exec check_crashes first_bad tmp_freeb run_plan
-  inplace_ops remove_rename_ops copyback_ops versions.
+  inplace_ops remove_rename_ops copyback_ops versions foreign_bad.
